@@ -107,6 +107,12 @@ func (r *Runner) RunCheck(ck *Check, tier string, seed int, filter string) int {
 					defer cross.Close()
 				}
 			}
+			var altSolver *smt.Solver
+			defer func() {
+				if altSolver != nil {
+					altSolver.Close()
+				}
+			}()
 			for {
 				mu.Lock()
 				i := next
@@ -115,7 +121,18 @@ func (r *Runner) RunCheck(ck *Check, tier string, seed int, filter string) int {
 				if i >= len(cases) {
 					return
 				}
-				results[i] = r.RunCase(progs[cases[i].Config], cases[i], solver, cross)
+				var alts []*smt.Solver
+				if cases[i].Portfolio {
+					if altSolver == nil {
+						kind := "z3"
+						if r.Solver == "z3" {
+							kind = "z3-new"
+						}
+						altSolver, _ = smt.StartSolver(kind, r.TimeoutMs)
+					}
+					alts = append(alts, altSolver)
+				}
+				results[i] = r.RunCase(progs[cases[i].Config], cases[i], solver, cross, alts...)
 				if r.Verbose {
 					cr := results[i]
 					fmt.Fprintf(os.Stderr, "[%s] %s: %s paths=%d obl=%d q=%d %.1fs %s\n", ck.ID, cases[i].Key(), cr.Status, cr.Paths, cr.Obligations, cr.Stats.Queries, cr.Wall.Seconds(), cr.Msg)
